@@ -1449,7 +1449,12 @@ def oracle_busy(spec: dict, tr: Trace):
         for mid in res["before"]:
             if res["relc"].get(mid, 0) != 1:
                 bad.append(("busy:release-count", f"manager {mid} released {res['relc'].get(mid, 0)} times", 0))
+        settled = spec.get("settled", True)
         for b, o in res["out"]:
+            if not settled:
+                # stop() may arrive before the task is busy at all: its look-up of the target may already fail (ValueError:
+                # unknown object, delivery error); what matters is that it got *an* answer and everything was reclaimed
+                continue
             if b in ("remote", "chain") and o != "QMI_MessageDeliveryException":
                 bad.append((f"busy:blocked-call-outcome:{b}", f"a task blocked in a call to the peer saw {o!r} when its context stopped", 0))
             if b in ("sleep", "signal") and o != "QMI_TaskStopException":
@@ -1457,7 +1462,7 @@ def oracle_busy(spec: dict, tr: Trace):
         if len(res["out"]) != len(spec["tasks"]):
             bad.append(("busy:task-not-finished", f"{len(spec['tasks'])} busy tasks, outcomes {res['out']}", 0))
         for outs in res["callers"]:
-            if outs != ["QMI_MessageDeliveryException"]:
+            if outs != ["QMI_MessageDeliveryException"] and (settled or len(outs) != 1 or outs == ["never-answered"]):
                 bad.append(("busy:caller-outcome", f"a thread blocked in a call to the peer saw {outs} when the context stopped", 0))
     if "after_remove" in res:
         thr, resid = res["after_remove"]
